@@ -16,7 +16,7 @@ from ..sx.sym import ctx
 from ..shims import pd_shim
 from ..shims import scipy_shim as SS
 from ..shims.np_shim import SymArray
-from .common import (P, box, evalf, load_sym, model_floats, not_close, paths, rng, K, Q, Sym, lift, simp, fresh)
+from .common import (snapshot, touched, P, box, evalf, load_sym, model_floats, not_close, paths, rng, K, Q, Sym, lift, simp, fresh)
 
 
 class _Par:
@@ -122,6 +122,7 @@ def replay_fit(model, pattern=("ok", "ok", "ok", "ok"), filt=True, window=None, 
     want = {"tau": (30.0, 2.0 * (n - 1)), "M": (cum[-2], inmax), "p_initial": (keep["Pressure"].max(), imax)}
     # first guesses of the initial pressure above and below the highest frac-face pressure (the declared limits do not
     # depend on the guess)
+    data0, pvt0 = data.copy(deep=True), pvt.copy(deep=True)
     for guess in (4000.0, max(float(keep["Pressure"].max()) - 700.0, 100.0)):
         with warnings.catch_warnings():
             warnings.simplefilter("ignore")
@@ -137,6 +138,10 @@ def replay_fit(model, pattern=("ok", "ok", "ok", "ok"), filt=True, window=None, 
                 problems.append(f"first guess {guess}: {k} limits [{p[k].min!r}, {p[k].max!r}] vs declared [{lo!r}, {hi!r}]")
             if not (p[k].min - 1e-9 <= p[k].value <= p[k].max + 1e-9):
                 problems.append(f"first guess {guess}: {k} = {p[k].value!r} outside its limits")
+        if not data.equals(data0) or list(data.columns) != list(data0.columns):
+            problems.append("the caller's production table was modified by fit_production_pressure")
+        if not pvt.equals(pvt0) or list(pvt.columns) != list(pvt0.columns):
+            problems.append("the caller's PVT table was modified by fit_production_pressure")
         if p["p_initial"].value < keep["Pressure"].max() - 1e-9:
             problems.append(f"first guess {guess}: fitted p_initial {p['p_initial'].value!r} below the highest frac-face pressure {keep['Pressure'].max()!r}")
         if problems:
@@ -300,9 +305,10 @@ def job_fit(job, pattern, filt, window, pvt_desc=False):
     def run():
         MinimizerStub.instances.clear()
         SS.reset_names()
+        snaps = (snapshot(frame), snapshot(pvt))
         res = mod.fit_production_pressure(frame, pvt, p0, filter_window_size=window, pressure_imax=imax, inplace_max=inmax,
                                           filter_zero_prod_days=filt, n_iter=Q(17))
-        return res, list(MinimizerStub.instances)
+        return res, list(MinimizerStub.instances), [t for t in (touched(snaps[0]), touched(snaps[1])) if t]
 
     rp = (replay_fit, {"pattern": [("ok" if q == "sure" else q) for q in pattern], "filt": filt, "window": window, "pvt_desc": pvt_desc})
     res = paths(job, run, [], catch=(Exception,), max_paths=64)
@@ -316,7 +322,12 @@ def job_fit(job, pattern, filt, window, pvt_desc=False):
             else:
                 job.record(f"{tag}/path{k} raises {type(pr.exc).__name__}", "info", 0.0, note=str(pr.exc)[:80])
             continue
-        out, minis = pr.value
+        out, minis, was_touched = pr.value
+        if was_touched:
+            job._violation(f"{tag}/the caller's production and PVT tables are left alone[path{k}]", {},
+                           {"what": "; ".join(was_touched), "replayer": "replay_fit", "replayer_kwargs": rp[1]}, None)
+        else:
+            job.record(f"{tag}/the caller's production and PVT tables are left alone[path{k}]", "unsat", 0.0, note="effect check on the path")
         if len(minis) != 1:
             job.errors.append(f"{tag}: expected one Minimizer")
             continue
